@@ -31,6 +31,8 @@ def run(tier: str) -> int:
         profiles.systematic_profile('core', lambda k, f: k in CORE, False, 30, 160, oracles, actions_mode='void',
                                     inputs=profiles.inputs_exhaustive(3, 5, cap_q=90, cap_t=700), per_tu=2, use_sem=True, heavy=True,
                                     ctx_names=['top', 'sor-first', 'seq-tail', 'seq-head', 'in-at', 'in-not_at', 'in-opt']),
+        # the atoms themselves: every leaf rule (degenerate forms included) against the formalism's accept sets
+        profiles.atoms_profile('atoms', oracles, cap_q=60, cap_t=300, per_tu=3, use_sem=True, exclude=('bol', 'bof', 'istring', 'istring0')),
         profiles.random_profile('rndcore', True, False, 20, 100, oracles, actions_mode='void',
                                 inputs=profiles.inputs_exhaustive(4, 6, cap_q=200, cap_t=1200), per_tu=2, use_sem=True),
         profiles.random_profile('rndcore_noact', True, False, 8, 40, oracles, actions_mode='none',
